@@ -14,7 +14,9 @@ from taskiq.scheduler.scheduled_task import ScheduledTask
 EPOCH = _dt.datetime(1970, 1, 1, tzinfo=_dt.timezone.utc)
 ZONES = ["UTC", "Europe/Berlin", "America/New_York", "Asia/Kolkata", "Asia/Kathmandu", "Australia/Lord_Howe",
          "Pacific/Chatham", "America/St_Johns", "Europe/London", "America/Sao_Paulo", "Asia/Tehran", "Pacific/Apia",
-         "Africa/Casablanca", "Australia/Adelaide"]
+         "Africa/Casablanca", "Australia/Adelaide",
+         # valid names that are not in pytz's "common" subset (old spellings, fixed-offset zones)
+         "Asia/Calcutta", "Etc/GMT+5", "Europe/Kiev"]
 
 
 def inst_to_dt(d: int, s: int, u: int = 0) -> _dt.datetime:
@@ -107,6 +109,40 @@ def _spec_value(items: List[Dict[str, Any]]) -> Any:
     return render_field(items)
 
 
+_SHORTCUT: Dict[str, Any] = {}
+
+
+def _via_task_shortcut(spec: Any) -> Any:
+    """ScheduledTask that reaches a schedule source when a decorated task is scheduled with a CronSpec."""
+    import asyncio
+
+    from taskiq import ScheduleSource
+    from taskiq.brokers.inmemory_broker import InMemoryBroker
+
+    if not _SHORTCUT:
+        broker = InMemoryBroker()
+
+        @broker.task(task_name="calc_shortcut")
+        async def job() -> None:
+            return None
+
+        class Capture(ScheduleSource):
+            last: Any = None
+
+            async def get_schedules(self) -> List[Any]:
+                return []
+
+            async def add_schedule(self, schedule: Any) -> None:
+                Capture.last = schedule
+        _SHORTCUT.update(task=job, src=Capture(), cls=Capture)
+    loop = asyncio.new_event_loop()
+    try:
+        loop.run_until_complete(_SHORTCUT["task"].schedule_by_cron(_SHORTCUT["src"], spec))
+    finally:
+        loop.close()
+    return _SHORTCUT["cls"].last
+
+
 def run(scn: Dict[str, Any]) -> Dict[str, Any]:
     """scn = {"calls": [...], "tz": optional host TZ}; returns {"cfg": {"zones": tables}, "ev": [...]}."""
     import os
@@ -147,6 +183,11 @@ def _run(scn: Dict[str, Any]) -> Dict[str, Any]:
                                 months=_spec_value(c["f"][3]), weekdays=_spec_value(c["f"][4]), offset=off)
                 expr = spec.to_cron()
                 off = spec.offset
+                if c["sod"] % 2 == 0:
+                    # the shortcut on the decorated task: task.schedule_by_cron(source, CronSpec(...)) - what the source is handed
+                    built = _via_task_shortcut(spec)
+                    if built is not None:
+                        expr, off = built.cron, built.cron_offset
             extra: Dict[str, Any] = {}
             if c.get("also_time"):
                 # an entry that carries a `time` next to its cron expression: it is a cron schedule, the time changes nothing
